@@ -69,6 +69,9 @@ type Case struct {
 	Scale *Scale `json:"scale,omitempty"`
 	// CONFIGURATION / ENVIRONMENT dimension (cfg_test.go): nil = the fixture's defaults
 	Cfg *Cfg `json:"cfg,omitempty"`
+	// LARGE-PAYLOAD dimension (large_test.go): one file upload / output callback of 64 KiB .. several MiB
+	// for one agent of the tree, optionally with one agent's counter carrying inside the payload
+	Large *Large `json:"large,omitempty"`
 }
 
 func keyFrom(seed byte) ([]byte, []byte) {
@@ -130,6 +133,7 @@ func gen(t *rapid.T) Case {
 	genBetween(t, &c)
 	genScale(t, &c)
 	genCfg(t, &c)
+	genLarge(t, &c)
 	return c
 }
 
@@ -223,6 +227,7 @@ func check(c Case) *core.Violation {
 		if i < len(c.IVEdge) {
 			iv = demonref.ApplyIVEdge(iv, c.IVEdge[i], c.Seeds[i])
 		}
+		iv = largeIV(c, i, iv)
 		chain = append(chain, sess{ID: id, Key: k, IV: iv, Meta: metaFor(c, id)})
 	}
 	depth := len(chain) - 1
@@ -277,6 +282,10 @@ func check(c Case) *core.Violation {
 	if v := scalePhase(c, w, chain, side, tag); v != nil {
 		return v
 	}
+	if v := largePhase(c, w, chain, side, tag); v != nil {
+		return v
+	}
+	live.drain()
 
 	// ---------------------------------------------------------------- downward
 	target := chain[depth]
@@ -582,6 +591,10 @@ func classify(c Case) core.Class {
 		cl.Labels = append(cl.Labels, sl...)
 		cl.Fingerprint += "|scale=" + fp
 	}
+	if ll, fp := largeLabels(c); fp != "" {
+		cl.Labels = append(cl.Labels, ll...)
+		cl.Fingerprint += "|large=" + fp
+	}
 	if bl, fp := betweenLabels(c); fp != "none" {
 		cl.Labels = append(cl.Labels, bl...)
 		cl.Fingerprint += "|btw=" + fp
@@ -592,7 +605,7 @@ func classify(c Case) core.Class {
 func TestC08(t *testing.T) {
 	core.Run(t, core.Spec[Case]{
 		Property: "C08", Sub: "a",
-		Rule: "pivot chains of depth 1-5 (optional sibling of the target) built through real, relayed SMB_CONNECT callbacks; ids from {1,2,2^31-1,2^31,2^32-1,random}, distinct keys, one agent in four with an IV whose counter block is about to carry (all 0xff, low 64 / 32 bits 0xff, ...fffffffe, ...fffffff0-ff, carry through 15 bytes: the Demon counts all 16 bytes as one big-endian counter); two operator tasks (sleep, fs/cd) for the last agent are unwrapped from the first hop's check-in reply layer by layer with each hop's own key and SmbRecv's frame rules; then a callback of the last agent is wrapped once per ancestor in scenarios ok / id never issued / id outstanding only for the parent / encrypted under the parent's key / sent by the sibling with the target's id / one frame mixing callbacks with never-issued ids and the outstanding one in either order; then (2 of 3 cases) one agent of the chain - the target or one of its ancestors - reconnects under a new directly connected agent (in half of these the old parent afterwards still hands in a frame it had read from the moved agent: the link must stay as the reconnect set it; in some a hop between the new first hop and the target answers a CHECKIN task with a new session key, which its layer must then be sealed with) and a third task for the last agent must be found, correctly wrapped for the new chain, at the new first hop and not at the old one. Operator commands between issue and poll (more than half of the cases carry in-between commands, a third extra tasks; about 1 in 5 a `task clear` on an intermediate hop while a descendant's task is pending): together with the target's two tasks, further tasks (sleep, fs/cd) are queued for several agents of the tree - first hop, intermediate hops, target, sibling - before, between and after the target's; then, before the first hop polls, a generated sequence of 1-3 operator commands runs through the real paths (Session/Input with CommandID Teamserver: `task::clear` or `task::list` on the first hop / an intermediate hop / the target / the sibling; a further task for any agent; Session/MarkAsDead marking an agent alive or the sibling dead); every task of the first hop's reply is followed down the tree (each layer must name a child of the hop that opened it) and every task issued for an agent whose queue the operator did not clear (clearing the first hop's queue releases everything waiting there; clearing a pivot agent's queue releases only that agent's own tasks) must arrive exactly once, in the order of issue, under that agent's key with the issued arguments - in particular a descendant's pending task survives `task clear` on a hop above it; nothing unissued or repeated may arrive. SCALE (about 1 case in 85; runs between the setup of the chain and the ordinary steps, which then follow on the same chain): one count is drawn from the threshold-adjacent pool {63,64,65,127,128,129,255,256,257,511,512,513,999,1000,1001,1023,1024,1025,2047,2048,2049,4095,4096,4097} - (1) tasks issued over the life of the chain to ONE pivot agent, the target: pool cut at 4097 in the quick tier, 16385 in the thorough tier; an ordinary polled task before the bulk, in the middle of it a task for another agent of the tree and `task list` on the target, the ordinary two tasks after it; the first and last three, every eighth and the tasks at threshold-adjacent lifetime ordinals go through the whole operator path (Session/Input), the others enter at Agent.AddJobToQueue, the call that path ends in (cost); the first hop polls every k tasks (k from {1,2,3,16,63..65,255..257,1000,1024,4096,never before the end}, raised to count/200) and EVERY task of every polled batch is followed down the tree layer by layer and must be the next task in the order of issue, once, with its arguments; (2) relayed callbacks (pool cut at 513 quick / 4097 thorough): the target answers that many of its outstanding bulk tasks, 1..1025 callbacks per relayed frame (at most 130 frames), each must take effect exactly once on the target's session, one callback with a never-issued id in the middle must not; (3) children of one hop (pool cut at 257 quick / 1025 thorough): that many agents with generated ids connect through relayed SMB_CONNECT under one generated agent of the chain, a task for the target and the newest child is routed half-way, afterwards tasks for the first, last and threshold-adjacent children and for the target must each open at the right agent under its key. CONFIGURATION / ENVIRONMENT (half of the cases keep the fixture's defaults; the others draw, independently and in combination): WebHook block - ts.WebHooks set up as Start() does (object only; Discord Url = an httptest server owned by the case answering 200 / 204 / 500 / 3 ms late / already closed; a Url that cannot be parsed; with or without User and AvatarUrl), so that every new agent is notified on the registration path; Service block with a live service client that registered a third-party agent type and one session of it (1 in 5); Demon.TrustXForwardedFor (listener BehindRedir; the requests carry no X-Forwarded-For, external addresses are empty); three operators in the profile with tasks issued under their names in turn, optionally plus an authenticated operator on a real websocket receiving every broadcast (not in scale cases); kill date (past / future) and working hours in every agent's registration metadata; time.Local set to UTC, +05:30, -08:00, +14:00 or -12:00 for the case. The oracle is unchanged under all of them. Non-trivial: depth >= 2 or an id >= 2^31; distinct = (depth, big id, sibling, scenario)",
+		Rule: "pivot chains of depth 1-5 (optional sibling of the target) built through real, relayed SMB_CONNECT callbacks; ids from {1,2,2^31-1,2^31,2^32-1,random}, distinct keys, one agent in four with an IV whose counter block is about to carry (all 0xff, low 64 / 32 bits 0xff, ...fffffffe, ...fffffff0-ff, carry through 15 bytes: the Demon counts all 16 bytes as one big-endian counter); two operator tasks (sleep, fs/cd) for the last agent are unwrapped from the first hop's check-in reply layer by layer with each hop's own key and SmbRecv's frame rules; then a callback of the last agent is wrapped once per ancestor in scenarios ok / id never issued / id outstanding only for the parent / encrypted under the parent's key / sent by the sibling with the target's id / one frame mixing callbacks with never-issued ids and the outstanding one in either order; then (2 of 3 cases) one agent of the chain - the target or one of its ancestors - reconnects under a new directly connected agent (in half of these the old parent afterwards still hands in a frame it had read from the moved agent: the link must stay as the reconnect set it; in some a hop between the new first hop and the target answers a CHECKIN task with a new session key, which its layer must then be sealed with) and a third task for the last agent must be found, correctly wrapped for the new chain, at the new first hop and not at the old one. Operator commands between issue and poll (more than half of the cases carry in-between commands, a third extra tasks; about 1 in 5 a `task clear` on an intermediate hop while a descendant's task is pending): together with the target's two tasks, further tasks (sleep, fs/cd) are queued for several agents of the tree - first hop, intermediate hops, target, sibling - before, between and after the target's; then, before the first hop polls, a generated sequence of 1-3 operator commands runs through the real paths (Session/Input with CommandID Teamserver: `task::clear` or `task::list` on the first hop / an intermediate hop / the target / the sibling; a further task for any agent; Session/MarkAsDead marking an agent alive or the sibling dead); every task of the first hop's reply is followed down the tree (each layer must name a child of the hop that opened it) and every task issued for an agent whose queue the operator did not clear (clearing the first hop's queue releases everything waiting there; clearing a pivot agent's queue releases only that agent's own tasks) must arrive exactly once, in the order of issue, under that agent's key with the issued arguments - in particular a descendant's pending task survives `task clear` on a hop above it; nothing unissued or repeated may arrive. SCALE (about 1 case in 85; runs between the setup of the chain and the ordinary steps, which then follow on the same chain): one count is drawn from the threshold-adjacent pool {63,64,65,127,128,129,255,256,257,511,512,513,999,1000,1001,1023,1024,1025,2047,2048,2049,4095,4096,4097} - (1) tasks issued over the life of the chain to ONE pivot agent, the target: pool cut at 4097 in the quick tier, 16385 in the thorough tier; an ordinary polled task before the bulk, in the middle of it a task for another agent of the tree and `task list` on the target, the ordinary two tasks after it; the first and last three, every eighth and the tasks at threshold-adjacent lifetime ordinals go through the whole operator path (Session/Input), the others enter at Agent.AddJobToQueue, the call that path ends in (cost); the first hop polls every k tasks (k from {1,2,3,16,63..65,255..257,1000,1024,4096,never before the end}, raised to count/200) and EVERY task of every polled batch is followed down the tree layer by layer and must be the next task in the order of issue, once, with its arguments; (2) relayed callbacks (pool cut at 513 quick / 4097 thorough): the target answers that many of its outstanding bulk tasks, 1..1025 callbacks per relayed frame (at most 130 frames), each must take effect exactly once on the target's session, one callback with a never-issued id in the middle must not; (3) children of one hop (pool cut at 257 quick / 1025 thorough): that many agents with generated ids connect through relayed SMB_CONNECT under one generated agent of the chain, a task for the target and the newest child is routed half-way, afterwards tasks for the first, last and threshold-adjacent children and for the target must each open at the right agent under its key. CONFIGURATION / ENVIRONMENT (half of the cases keep the fixture's defaults; the others draw, independently and in combination): WebHook block - ts.WebHooks set up as Start() does (object only; Discord Url = an httptest server owned by the case answering 200 / 204 / 500 / 3 ms late / already closed; a Url that cannot be parsed; with or without User and AvatarUrl), so that every new agent is notified on the registration path; Service block with a live service client that registered a third-party agent type and one session of it (1 in 5); Demon.TrustXForwardedFor (listener BehindRedir; the requests carry no X-Forwarded-For, external addresses are empty); three operators in the profile with tasks issued under their names in turn, optionally plus an authenticated operator on a real websocket receiving every broadcast (not in scale cases); kill date (past / future) and working hours in every agent's registration metadata; time.Local set to UTC, +05:30, -08:00, +14:00 or -12:00 for the case. The oracle is unchanged under all of them. LARGE PAYLOAD (about 1 case in 50, not together with SCALE; runs between the setup of the chain and the ordinary steps, which then follow on the same chain): one payload of a size from the threshold-adjacent pool {64 KiB, 64 KiB+1, 1 MiB-64, 1 MiB, 1 MiB+1, 1 MiB+4096, 2 MiB-1, 2 MiB, 2 MiB+1, 3 MiB+17, 4 MiB+1} (thorough tier also 5, 6, 8, 12, 16 MiB) is moved for one agent of the tree (3 of 4 the target, otherwise any of first hop / intermediate hop / target / sibling): DOWN (3 of 4) - the operator uploads a file of that size through Session/Input (fs upload -> UploadMemFileInChunks -> PivotAddJob), the first hop polls until it is told nothing is left, every task of every reply is followed down the tree layer by layer with each hop's own key, and what opens at the addressee under its key must be mem-file records [id][total][bytes] with one id, total = file size, concatenating to exactly the file, followed by the fs/upload task (issued request id, file name, that mem-file id), nothing at any other agent; UP (1 of 2) - the agent answers its outstanding task (the upload, or a delivered sleep task) with a COMMAND_OUTPUT callback of that size wrapped once per ancestor: exactly that text must appear exactly once, on that agent's session, with the stated length. In 3 of 4 large cases one agent of the chain (any position) gets an IV whose low 32 / 64 / 96 / 128 counter bits are 2^bits - k, k drawn from 1..payload blocks+8 or {1,2,4096,65535,65536,65537,131072,blocks/2,blocks}, so that the counter of its layer carries out of those bits somewhere inside (or just past) the payload - the Demon and crypto/cipher count all 16 bytes as one big-endian counter wherever the carry happens (labels large:...). Non-trivial: depth >= 2 or an id >= 2^31; distinct = (depth, big id, sibling, scenario)",
 		Gen:   gen, Check: check, Classify: classify,
 		Assumptions: []string{"the Demon's pipe framing and PivotPush wrapping are transcribed from TransportSmb.c / Pivot.c / Command.c"},
 	})
